@@ -1,9 +1,10 @@
 #!/usr/bin/env python3
-"""usage: auto_twins.py <fstring|hoist> <out-dir> [file ...]
+"""usage: auto_twins.py <fstring|hoist|tern2if|if2tern> <out-dir> [file ...]
 Mechanical behaviour-preserving rewrites of the generators, one function at a time, written as
 <out-dir>/benign_out/<n>/patch.diff for tools/benign_matrix.py:
   fstring  every `'<template>'.format(k=<simple expr>, ...)` of the function becomes the equivalent f-string
            (only calls whose arguments are names / attributes / constants / subscripts: evaluation order cannot matter);
+  tern2if  `x = A if c else B` becomes an if/else statement;  if2tern  the reverse, for if/else pairs that assign one name;
   hoist    every keyword argument of a `.format` call in a simple statement is first bound to a local
            (`k_v = <expr>` in argument order, directly in front of the statement) and the local is passed.
 A twin is kept only if the repository's test suite still passes with it (run in a scratch copy under /dev/shm)."""
@@ -155,10 +156,58 @@ def rewrite_hoist(src, fn):
     return out
 
 
+def rewrite_ternary_to_if(src, fn):
+    """`x = A if c else B` (a statement of its own)  ->  `if c: x = A / else: x = B`."""
+    lines = src.splitlines(keepends=True)
+    edits = []
+    for st in ast.walk(fn):
+        if isinstance(st, ast.Assign) and len(st.targets) == 1 and isinstance(st.targets[0], ast.Name) and isinstance(st.value, ast.IfExp) and st.col_offset > 0:
+            ind = " " * st.col_offset
+            t = st.targets[0].id
+            new = (f"if {ast.unparse(st.value.test)}:\n{ind}    {t} = {ast.unparse(st.value.body)}\n"
+                   f"{ind}else:\n{ind}    {t} = {ast.unparse(st.value.orelse)}")
+            a, b = span(lines, st)
+            edits.append((a, b, new))
+    if not edits:
+        return None
+    out = src
+    for a, b, new in sorted(edits, reverse=True):
+        out = out[:a] + new + out[b:]
+    return out
+
+
+def rewrite_if_to_ternary(src, fn):
+    """`if c: x = A / else: x = B` (nothing else in the branches)  ->  `x = A if c else B`."""
+    lines = src.splitlines(keepends=True)
+    edits = []
+    for st in ast.walk(fn):
+        if isinstance(st, ast.If) and len(st.body) == 1 and len(st.orelse) == 1 and all(
+                isinstance(x, ast.Assign) and len(x.targets) == 1 and isinstance(x.targets[0], ast.Name) for x in (st.body[0], st.orelse[0])) \
+                and st.body[0].targets[0].id == st.orelse[0].targets[0].id:
+            par = getattr(st, "_parent", None)
+            if isinstance(par, ast.If) and st in par.orelse and len(par.orelse) == 1:
+                continue          # an `elif`: rewriting it would need an `else:` line
+            t = st.body[0].targets[0].id
+            new = f"{t} = ({ast.unparse(st.body[0].value)}) if ({ast.unparse(st.test)}) else ({ast.unparse(st.orelse[0].value)})"
+            a, b = span(lines, st)
+            edits.append((a, b, new))
+    if not edits:
+        return None
+    keep = []
+    for e in sorted(edits):
+        if keep and e[0] < keep[-1][1]:
+            continue
+        keep.append(e)
+    out = src
+    for a, b, new in reversed(keep):
+        out = out[:a] + new + out[b:]
+    return out
+
+
 def main():
     mode, outdir = sys.argv[1], sys.argv[2]
     files = sys.argv[3:] or FILES
-    rw = {"fstring": rewrite_fstring, "hoist": rewrite_hoist}[mode]
+    rw = {"fstring": rewrite_fstring, "hoist": rewrite_hoist, "tern2if": rewrite_ternary_to_if, "if2tern": rewrite_if_to_ternary}[mode]
     os.makedirs(os.path.join(outdir, "benign_out"), exist_ok=True)
     n = 0
     base = tempfile.mkdtemp(prefix="tw-", dir="/dev/shm")
@@ -169,6 +218,9 @@ def main():
         for rel in files:
             src = open(os.path.join(base, rel)).read()
             tree = ast.parse(src)
+            for p_ in ast.walk(tree):
+                for c_ in ast.iter_child_nodes(p_):
+                    c_._parent = p_
             for fn in functions(tree):
                 new = rw(src, fn)
                 if new is None or new == src:
